@@ -34,6 +34,7 @@ class SQLLiteQuery(Query):
 
 class SQLLiteQueryBuilder(QueryBuilder):
     QUERY_CLS = SQLLiteQuery
+    LIMIT_FOR_BARE_OFFSET = " LIMIT -1"  # SQLite has no OFFSET without LIMIT; a negative limit means "no limit"
 
     def __init__(self, **kwargs) -> None:
         super().__init__(
